@@ -1,6 +1,8 @@
 """Which contract groups serve which property."""
 PROPERTY_GROUPS = {
+    'C01': ['rep'],
     'C02': ['rep'],
+    'C06': ['rep'],
     'C13': ['httprange'],
     'C14': ['events'],
     'C19': ['dt'],
